@@ -221,6 +221,8 @@ class RealExec(vmp.Exec):
 
 def conform(cfg, choices, fault, virtual):
     """Replay one explored schedule on real processes; returns None if it conforms, else a description."""
+    if virtual.get("uses_sync"):
+        return "SKIPPED"  # semaphores / locks shared with the workers are explored on the model only
     try:
         r = RealExec(cfg, choices, fault).run()
     except vmp.ReplayDivergence as e:
